@@ -345,6 +345,62 @@ func runMetaCase(bin, dir string, mc *metaCase) {
 		}
 		nops = len(script)
 	}
+	if mc.Kind == "idleburst" || mc.Kind == "ackburst" {
+		// set-up, then a burst of CONCURRENT admin requests, each on its own object, all acknowledged
+		for _, p := range []string{"/topic/create?topic=t1", "/topic/create?topic=t2"} {
+			c.req("POST", p)
+			mc.Ops++
+		}
+		n := 6 + rng.Intn(10)
+		if mc.Kind == "ackburst" {
+			for i := 0; i < n; i++ {
+				c.req("POST", fmt.Sprintf("/channel/create?topic=t1&channel=b%d", i))
+				mc.Ops++
+			}
+			time.Sleep(100 * time.Millisecond)
+		}
+		var bw sync.WaitGroup
+		var amu sync.Mutex
+		for i := 0; i < n; i++ {
+			bw.Add(1)
+			go func(i int) {
+				defer bw.Done()
+				if mc.Kind == "idleburst" {
+					st, _ := c.req("POST", fmt.Sprintf("/channel/create?topic=t%d&channel=b%d", 1+i%2, i))
+					_ = st
+					return
+				}
+				obj := fmt.Sprintf("t1/b%d", i)
+				switch i % 3 {
+				case 0, 1:
+					// a few pause/unpause toggles of this goroutine's own channel: the last acknowledged value counts
+					val, okAll := false, true
+					for j := 0; j < 3+i%4; j++ {
+						verb := "pause"
+						if j%2 == 1 {
+							verb = "unpause"
+						}
+						st, _ := c.req("POST", fmt.Sprintf("/channel/%s?topic=t1&channel=b%d", verb, i))
+						if st != 200 {
+							okAll = false
+							break
+						}
+						val = verb == "pause"
+					}
+					if okAll {
+						amu.Lock()
+						acked[obj] = val
+						amu.Unlock()
+					}
+				case 2:
+					c.req("POST", fmt.Sprintf("/channel/delete?topic=t1&channel=b%d", i))
+				}
+			}(i)
+		}
+		bw.Wait()
+		mc.Ops += n
+		nops = 0
+	}
 	if !mc.Died {
 		for i := 0; i < nops && c.alive(); i++ {
 			p := churnStep(rng)
@@ -419,7 +475,7 @@ func runMetaCase(bin, dir string, mc *metaCase) {
 		} else {
 			mc.Died = true
 		}
-	case "idle", "idledelete":
+	case "idle", "idledelete", "idleburst", "ackburst":
 		// wait until every notify goroutine has finished and the file has stopped changing
 		deadline := time.Now().Add(20 * time.Second)
 		for {
@@ -499,7 +555,7 @@ func runMetaCase(bin, dir string, mc *metaCase) {
 	if len(loaded) > 0 && !visited[key] {
 		mc.failf("after the restart the daemon has topics/channels %v, a set it never passed through (it persisted only %d distinct documents)", loaded, len(visited))
 	}
-	if (mc.Kind == "idle" || mc.Kind == "idledelete") && mc.Incon == "" {
+	if (mc.Kind == "idle" || mc.Kind == "idledelete" || mc.Kind == "idleburst" || mc.Kind == "ackburst") && mc.Incon == "" {
 		if strings.Join(idleTopo, ",") != key {
 			mc.failf("[idle] the daemon was idle with %v; after SIGKILL and restart it has %v", idleTopo, loaded)
 		}
